@@ -31,7 +31,7 @@ POLY_PINV = ['poly', 'modpoly', 'imodpoly', 'penalized_poly', 'goldindec']
 POLY_VAND = ['loess', 'quant_reg']
 SPLINES = ['pspline_asls', 'pspline_arpls', 'pspline_airpls', 'mixture_model', 'irsqr', 'pspline_iarpls',
            'pspline_psalsa', 'pspline_lsrpls']
-WHITS = ['asls', 'arpls', 'airpls', 'iarpls', 'psalsa']
+WHITS = ['asls', 'arpls', 'airpls', 'iarpls', 'psalsa', 'aspls']
 PLAIN = {'mor': {'half_window': 3}, 'snip': {'max_half_window': 4}, 'rolling_ball': {'half_window': 3},
          'noise_median': {'half_window': 3}}
 UNIQUE_PLAIN = {'golotvin': {'half_window': 4, 'sections': 4}, 'std_distribution': {'half_window': 4},
@@ -43,7 +43,7 @@ SPEED = {'modpoly': {'max_iter': 15}, 'imodpoly': {'max_iter': 15}, 'penalized_p
          'pspline_airpls': {'max_iter': 8}, 'mixture_model': {'max_iter': 8}, 'irsqr': {'max_iter': 8},
          'pspline_iarpls': {'max_iter': 8}, 'pspline_psalsa': {'max_iter': 8}, 'pspline_lsrpls': {'max_iter': 8},
          'asls': {'max_iter': 8, 'lam': 1e3}, 'arpls': {'max_iter': 8, 'lam': 1e3}, 'airpls': {'max_iter': 8, 'lam': 1e3},
-         'iarpls': {'max_iter': 8, 'lam': 1e3}, 'psalsa': {'max_iter': 8, 'lam': 1e3},
+         'iarpls': {'max_iter': 8, 'lam': 1e3}, 'psalsa': {'max_iter': 8, 'lam': 1e3}, 'aspls': {'max_iter': 8, 'lam': 1e3},
          'iasls': {'max_iter': 8, 'lam': 1e3}, 'pspline_iasls': {'max_iter': 8},
          'dietrich': {'smooth_half_window': 2}, 'swima': {'min_half_window': 2, 'max_half_window': 5},
          'cwt_br': {'scales': [2, 3, 4]}}
@@ -57,6 +57,7 @@ def gen_call_1d(rng, last=None):
     r = rng.random()
     data = 'ok'
     w = None
+    alpha = None
     kw = {}
     if r < 0.06:
         return {'m': 'set_solver', 'v': rng.choice([1, 2, 3, 4, 1, 3, 4, 0, 5, -1, 7])}
@@ -84,8 +85,8 @@ def gen_call_1d(rng, last=None):
                 kw['method_kwargs'] = {'max_iter': 5, 'num_knots': 6, 'spline_degree': 3}
         else:
             kw = {'method': 'asls', 'method_kwargs': {'lam': 1e3, 'max_iter': 5},
-                  'regions': [[None, 8]], 'sampling': 2, 'lam': rng.choice([None, 1e2])}
-        return {'m': m, 'kw': kw, 'data': 'ok', 'w': w}
+                  'regions': rng.choice([[[0, 8]], [[2, 10]], [[0, 6], [12, 16]]]), 'sampling': 2, 'lam': rng.choice([None, 1e2])}
+        return add_pp(rng, {'m': m, 'kw': kw, 'data': 'ok', 'w': w}, ('regions',), 0.5)
     if r < 0.40:
         m = rng.choice(POLY_PINV + POLY_PINV + POLY_VAND)
         p = rng.choice([0, 1, 2, 2, 3, 3, 4, 5, 6, 7])
@@ -155,8 +156,12 @@ def gen_call_1d(rng, last=None):
         m = rng.choice(WHITS)
         kw = {'diff_order': rng.choice([1, 2, 2, 3, 0])}
         w = rng.choice([None, None, 'ok', 'pool', 'bad'])
+        if m == 'aspls' and rng.random() < 0.6:
+            alpha = 'pool'
     elif r < 0.94:
         m = rng.choice(sorted(UNIQUE_PLAIN))
+        if m == 'golotvin':
+            kw = {'sections': rng.choice([3, 4, 5])}
     else:
         m = rng.choice(sorted(PLAIN))
     t = rng.random()
@@ -169,7 +174,10 @@ def gen_call_1d(rng, last=None):
         data = 'nan'
     elif t < 0.12 and m in ('poly', 'imodpoly', 'quant_reg', 'pspline_asls', 'asls'):
         data = 'none'
-    return add_pp(rng, {'m': m, 'kw': kw, 'data': data, 'w': w}, ARRAYABLE_1D)
+    call = {'m': m, 'kw': kw, 'data': data, 'w': w}
+    if alpha and data in ('ok', 'pool'):
+        call['alpha'] = alpha
+    return add_pp(rng, call, ARRAYABLE_1D)
 
 
 def coq_opt(v):
@@ -278,7 +286,7 @@ def refill(buf, base, idx):
 # its contents changed in between (call['pp'] lists the parameters of that call passed this way)
 # (a 0-d spline_degree is rejected by the numba basis kernel's typing, for reused and fresh objects alike)
 # (a 0-d diff_order is unhashable in the 1-D penalty lookup: TypeError for reused and fresh objects alike)
-ARRAYABLE_1D = ('poly_order', 'num_knots', 'lam')
+ARRAYABLE_1D = ('poly_order', 'num_knots', 'lam', 'sections', 'regions')
 ARRAYABLE_2D = ('poly_order', 'num_knots', 'spline_degree', 'diff_order', 'lam', 'max_cross', 'half_window')
 FLOAT_PARAMS = ('lam',)
 
@@ -343,6 +351,11 @@ def call_args_1d(call, N, y, pool=None, idx=0, fresh=False, unpool=()):
         kw['weights'] = np.linspace(0.5, 1.5, nd)
     elif call['w'] == 'bad':
         kw['weights'] = np.linspace(0.5, 1.5, nd + 1)
+    if call.get('alpha') and pool is not None:
+        # a per-point parameter array (aspls): the same object refilled in place and passed again
+        if not fresh:
+            refill(pool.setdefault('alpha', np.ones(N)), np.linspace(0.6, 1.0, N), idx)
+        kw['alpha'] = pool['alpha'].copy() if fresh else pool['alpha']
     pool_params(call, kw, pool, fresh, 1, unpool)
     return data, kw
 
